@@ -40,7 +40,7 @@ def register(PROPS, HARNESS_PKGS):
     HARNESS_PKGS["c10disc"] = "internal/adapter/discovery"
     HARNESS_PKGS["c10flt"] = "internal/adapter/filter"
     PROPS["C10"] = {
-        "rule": "catalogue: TLC enumerates every sequence of N operations {successful listing, rejected list "
+        "rule": "status: the status page (GET /internal/status/models) over an unchanging catalogue, 1 or 8 clients at the same moment, every answer validated against the listings. catalogue: TLC enumerates every sequence of N operations {successful listing, rejected list "
                 "(nameless entry), failed discovery (500/404/203/204/unparsable/truncated/connection cut), removal} "
                 "over 2 endpoints (quick N=2, thorough N=3 and a sample of N=4; also 3 endpoints and per-endpoint "
                 "filters) plus seeded random walks (quick 2500 x 4 steps, thorough 60000 x 6 + 10000 x 12) over 3 "
@@ -103,6 +103,21 @@ def register(PROPS, HARNESS_PKGS):
                 "harness_dirs": ["c10flt"],
                 "trace": {"module": "GlobLookupTrace", "cfg": "GlobLookup_trace.cfg"},
                 "nontrivial": lambda s: len(s) > 100,
+            },
+            {
+                # the counts the status page shows (GET /internal/status/models) over a catalogue that does not
+                # change, asked by one client or by eight at the same moment
+                "name": "status",
+                "mc": [],
+                "quick": {"gen": [{"module": "StatusView", "cfg": "StatusView_gen.cfg",
+                                   "params": {"Models": '{"alphaone", "bravotwo"}', "Widths": "{1, 8}"}}]},
+                "thorough": {"gen": [{"module": "StatusView", "cfg": "StatusView_gen.cfg",
+                                      "params": {"Models": '{"alphaone", "bravotwo", "charliethree"}', "Widths": "{1, 8, 24}"}}],
+                             "sample": 300},
+                "pkg": "internal/app", "test": "TestVerif_StatusView",
+                "harness_files": ["stack_test.go", "status_test.go"],
+                "trace": {"module": "StatusViewTrace", "cfg": "StatusView_trace.cfg"},
+                "nontrivial": lambda s: s["width"] > 1,
             },
         ],
     }
